@@ -5,7 +5,9 @@
 (* sources include headers (inc), headers include higher-numbered headers (hinc).  *)
 (* The program prints Total.                                                       *)
 EXTENDS Naturals, Sequences, FiniteSets, TLC
-CONSTANTS S, H, MaxEdits
+CONSTANTS S, H, MaxEdits,
+          Pch       \* "" or the header (member of H) that is the target's precompiled header: every
+                    \* source is compiled against it (bfg9000 adds -include), it cannot be dropped
 VARIABLES ver,      \* file -> version (sources and existing headers)
           inc,      \* source -> set of headers it #includes
           hinc,     \* header -> set of headers it #includes (acyclic: only "later" headers)
@@ -14,7 +16,8 @@ VARIABLES ver,      \* file -> version (sources and existing headers)
                     \* the set of <<file, version>> of the source and its include closure
           edits, hist
 vars == <<ver, inc, hinc, exists, objver, edits, hist>>
-HSeq == CHOOSE q \in [1..Cardinality(H) -> H] : \A i, j \in 1..Cardinality(H) : i # j => q[i] # q[j]
+HSeq == CHOOSE q \in [1..Cardinality(H) -> H] : /\ \A i, j \in 1..Cardinality(H) : i # j => q[i] # q[j]
+                                                /\ (Pch \in H => q[1] = Pch)   \* the pch may include every other header
 Idx(h) == CHOOSE i \in 1..Cardinality(H) : HSeq[i] = h
 RECURSIVE TVal(_, _, _), TSum(_, _, _)
 TVal(v, hi, h) == v[h] + TSum(v, hi, hi[h])
@@ -27,7 +30,7 @@ RECURSIVE Closure(_)
 Closure(X) == IF X = {} THEN {} ELSE X \cup Closure(UNION { hinc[h] : h \in X })
 Included == Closure(UNION { inc[s] : s \in S })
 
-Init == /\ ver = [f \in S \cup H |-> 1] /\ inc = [s \in S |-> {}] /\ hinc = [h \in H |-> {}]
+Init == /\ ver = [f \in S \cup H |-> 1] /\ inc = [s \in S |-> IF Pch \in H THEN {Pch} ELSE {}] /\ hinc = [h \in H |-> {}]
         /\ exists = [h \in H |-> TRUE] /\ objver = [s \in S |-> {}] /\ edits = 0 /\ hist = <<>>
 Log(e) == hist' = Append(hist, e)
 E == edits < MaxEdits /\ edits' = edits + 1
@@ -36,7 +39,7 @@ Modify(f) == /\ E /\ (f \in H => exists[f]) /\ ver' = [ver EXCEPT ![f] = @ + 1]
 AddInc(s, h) == /\ E /\ exists[h] /\ h \notin inc[s] /\ inc' = [inc EXCEPT ![s] = @ \cup {h}]
                 /\ ver' = [ver EXCEPT ![s] = @ + 1]
                 /\ Log([op |-> "addinc", f |-> s, g |-> h]) /\ UNCHANGED <<hinc, exists, objver>>
-DropInc(s, h) == /\ E /\ h \in inc[s] /\ inc' = [inc EXCEPT ![s] = @ \ {h}]
+DropInc(s, h) == /\ E /\ h \in inc[s] /\ h # Pch /\ inc' = [inc EXCEPT ![s] = @ \ {h}]
                  /\ ver' = [ver EXCEPT ![s] = @ + 1]
                  /\ Log([op |-> "dropinc", f |-> s, g |-> h]) /\ UNCHANGED <<hinc, exists, objver>>
 AddHInc(h, g) == /\ E /\ exists[h] /\ exists[g] /\ Idx(g) > Idx(h) /\ g \notin hinc[h]
